@@ -36,3 +36,7 @@ var oracleStatus = map[string]bool{"HIT": true, "STALE": true, "REVALIDATED": tr
 
 // O-LIST: fields whose value is a list that may span several field lines and that this code base interprets.
 var oracleListFields = []string{"Cache-Control", "Vary", "Connection"}
+
+// O-HEUR: status codes that are heuristically cacheable by default, RFC 9110 §15.1 ("200, 203, 204, 206, 300, 301, 308,
+// 404, 405, 410, 414, and 501"). A cache may use fewer; it must not assign a heuristic lifetime to any other status.
+var oracleHeuristic = []int64{200, 203, 204, 206, 300, 301, 308, 404, 405, 410, 414, 501}
